@@ -30,7 +30,7 @@ type c15Expect struct {
 	Big   bool     `json:"big,omitempty"`
 }
 
-var c15Hostile = []string{" ", "  ", "'", "\"", "`", "$", "@", "~", "*", "?", ";", "|", "&", "{", "}", "[", "]", "(", ")", "<", ">", "#", "\\", ",", ":", "=", "%", "!", "é", "日本", "😀", "a", "b", "Z", "0", "12", "-", "--x", "true", "null", "k: v", "- z", " #c", "//"}
+var c15Hostile = []string{"\x1b[31m", "\x01", "\x7f", "\x08", "\x0b", " ", "  ", "'", "\"", "`", "$", "@", "~", "*", "?", ";", "|", "&", "{", "}", "[", "]", "(", ")", "<", ">", "#", "\\", ",", ":", "=", "%", "!", "é", "日本", "😀", "a", "b", "Z", "0", "12", "-", "--x", "true", "null", "k: v", "- z", " #c", "//"}
 
 func yamlPlain(s string) bool {
 	if s == "" || strings.TrimSpace(s) != s {
@@ -80,7 +80,8 @@ func c15Elem(r *rand.Rand, typ string, size int) string {
 		case "jsonl":
 			return strings.TrimSpace(s)
 		case "str", "string", "generic", "*":
-			s = strings.TrimSpace(strings.ReplaceAll(s, "\t", " "))
+			// tab and vertical tab are column separators of the generic reader (outside its legal alphabet)
+			s = strings.TrimSpace(strings.NewReplacer("\t", " ", "\x0b", " ").Replace(s))
 			if s != "" {
 				return s
 			}
